@@ -122,6 +122,13 @@ fn check_bytes(refm: &RefModel, eng: &str, high: bool, k: usize, r: usize, bytes
                     for o in originals.iter_mut() {
                         o.copy_from_slice(&first);
                     }
+                } else if shape == "special" {
+                    // particular symbol values: a zero shard, two equal shards, all 0xFFFF, equal halves, a cycle of
+                    // {0,1,0xFFFF,0x00FF,0xFF00,0x8000,0x0100,0x0101,0xFFFE}; second round: the same shards rotated by one
+                    originals = data_special(k, bytes);
+                    if round == 1 {
+                        originals.rotate_left(1.min(k - 1));
+                    }
                 } else if let Some(i) = shape.strip_prefix("unit") {
                     let i: usize = i.parse().expect("unit index");
                     for (j, o) in originals.iter_mut().enumerate() {
@@ -269,6 +276,21 @@ pub fn run(ctx: &Ctx, rep: &mut Report) {
             }
         }
     }
+    let special_cfgs: Vec<(usize, usize)> = (1..=8usize).flat_map(|k| (1..=8usize).map(move |r| (k, r))).chain([(20, 12), (12, 20), (33, 31), (70, 40), (40, 70), (9, 130), (130, 9)]).collect();
+    for (ci, &(k, r)) in special_cfgs.iter().enumerate() {
+        for rate in ["high", "low"] {
+            for eng in engines_all() {
+                if eng == "default" || (eng == "naive" || eng == "neonemu") && k + r > 16 && !ctx.thorough() {
+                    continue;
+                }
+                let sizes: Vec<usize> = if ctx.thorough() { vec![64, 66, 130, 192, 2] } else { vec![[64usize, 130, 192, 66][ci % 4]] };
+                for bytes in sizes {
+                    cases.push(Kv::new().with("mode", "bytes").with("eng", eng).with("rate", rate).with("k", k).with("r", r).with("bytes", bytes).with("soil", if ci % 2 == 0 { soil } else { 0 }).with("seed", seed).with("shape", "special"));
+                }
+            }
+        }
+    }
+    rep.bound("bytes_special_values", J::s("[1..8]^2 + (20,12) (12,20) (33,31) (70,40) (40,70) (9,130) (130,9) x {high,low} x every engine: data made of the symbol values a data-dependent short cut would single out (an all-zero shard, two equal shards, an all-0xFFFF shard, equal low/high halves, a cycle of 0x0000 0x0001 0xFFFF 0x00FF 0xFF00 0x8000 0x0100 0x0101 0xFFFE), two rounds, every recovery byte"));
     rep.bound("bytes_shapes", J::s("[1..6]^2 x {high,low} x every engine: k identical shards and every single-non-zero-shard data set (shard sizes 64/130/192 in rotation)"));
     for (k, r) in [(1usize, 1usize), (2, 3), (3, 2), (5, 3), (3, 5), (4, 4), (17, 5), (5, 17)] {
         for rate in ["high", "low"] {
